@@ -548,6 +548,13 @@ def parse_equation_terms(equation: str) -> List[Term]:
             f'names - these keywords are invalid for this purpose: `{equation}`'
         )
 
+    # The equation and its code are attached to the variable(s) on the
+    # left-hand side: without one, the statement would be silently dropped
+    if not any(t.type == Type.ENDOGENOUS for t in lhs_terms):
+        raise ParserError(
+            f"Failed to find a variable to assign to on the left-hand side of: '{equation}'"
+        )
+
     return lhs_terms + rhs_terms
 
 
